@@ -6,7 +6,7 @@ EXTENDS E30CommMon, Json
 VARIABLES st, inp, out, exch   \* exch: an S1F13/S1F14(0) exchange completed on the current link
 vars == <<st, inp, out, exch>>
 
-Init == st = [cm |-> "DISABLED", link |-> "down", en |-> FALSE] /\ inp = [k |-> "Init"] /\ out = Quiet /\ exch = FALSE
+Init == st \in {[cm |-> "DISABLED", link |-> "down", en |-> FALSE, deny |-> d] : d \in BOOLEAN} /\ inp = [k |-> "Init"] /\ out = Quiet /\ exch = FALSE
 
 Step(i) == /\ Feasible(st, i)
            /\ \E r \in Eff(st, i) : st' = r.s /\ out' = r.out
